@@ -35,6 +35,7 @@ pub fn fuzz_one(id: &str, data: &[u8]) {
                 signature: f.signature.clone(),
                 trace: vec![],
                 note: "found by the libFuzzer driver".into(),
+                tier: Tier::Quick.name().to_string(),
             };
             let _ = std::fs::write(&path, serde_json::to_string_pretty(&rf).unwrap_or_default());
             eprintln!("FUZZ-VIOLATION property={} clause={} replay={}", st.prop.id(), f.clause, path.display());
